@@ -329,6 +329,20 @@ def judge(ctx, src, res, T, W, b, half, op, opts, tol, smooth=False, margin=0.0,
     return judged
 
 
+def scribble(rng, shape):
+    """A caller asks for the pixel index grid of an image of this shape and edits the array it got (adds an offset, reverses it):
+    the array is the caller's - no later operation may be affected."""
+    import menpo.image as mi
+    if rng.random() < 0.25:
+        try:
+            for im in (mi.Image(np.zeros((1,) + tuple(shape))), mi.MaskedImage(np.zeros((1,) + tuple(shape)))):
+                g = im.indices()
+                g += 3
+                g[...] = g[::-1]
+        except Exception:
+            pass
+
+
 def call(fn, rt, *a, **k):
     """Call op with return_transform on/off; returns (result, transform or None)."""
     if rt:
@@ -367,6 +381,7 @@ def w_ops(ctx, rng, i):
         base = 90
     shp = tuple(int(v) for v in rng.integers(base - 8, base + 12, d))
     src, W, b, half = make_image(rng, cls, shp, int(rng.integers(0, 5 - d)) if d == 2 else int(rng.integers(0, 2)), dtype)
+    scribble(rng, shp)
     tol = 1e-6 if dtype != np.float32 else 2e-3
     rt = bool(rng.random() < 0.5)
     lmc = []
@@ -432,6 +447,7 @@ def w_ops(ctx, rng, i):
             results.append(call(src.rescale, rt, s if rng.random() < 0.5 else list(s), round=rnd, **okw))
         elif op == "resize":
             ns = tuple(int(v) for v in rng.integers(max(4, base // 2), base + 15, d))
+            scribble(rng, ns)
             opts = {"shape_changes": [int(a != b_) for a, b_ in zip(ns, shp)], "order": so}
             results.append(call(src.resize, rt, ns, **okw))
         elif op == "rescale_to_diagonal":
@@ -517,6 +533,7 @@ def w_ops(ctx, rng, i):
             src.landmarks["g0"] = ms.PointCloud(P)
             lmc = ["PointCloud"]
         tshape = tuple(int(v) for v in rng.integers(base - 10, base + 6, d))
+        scribble(rng, tshape)
         if op == "warp_alignment":
             # an alignment fitted to noisy correspondences (non-zero residual): template-side points -> source-side points
             k = int(rng.integers(d + 2, 9))
@@ -566,6 +583,16 @@ def w_ops(ctx, rng, i):
                 t = mt.NonUniformScale(rng.uniform(0.7, 1.3, d))
             else:
                 t = mt.Rotation(gen.rotation_matrix(rng, d)) if d == 3 else mt.Rotation.init_from_2d_ccw_angle(float(rng.uniform(-12, 12)))
+        if op == "warp_affine" and type(t).__name__ in ("Translation", "UniformScale", "NonUniformScale", "Rotation") and rng.random() < 0.5:
+            # "try to fold the next step in in place, fall back to a new object": a small affine adjustment of another class
+            hh = np.eye(d + 1)
+            hh[:d, :d] += rng.uniform(-0.06, 0.06, (d, d))
+            hh[:d, d] = rng.uniform(-1.5, 1.5, d)
+            adj = mt.Affine(hh)
+            try:
+                t.compose_before_inplace(adj)
+            except ValueError:
+                t = t.compose_before(adj)
         used = False
         if rng.random() < 0.4 and op in ("warp_affine", "warp_alignment", "warp_tps", "warp_pwa"):
             # the transform object has a past: out-of-place compositions, an inverse taken, a copy made - none of which changes it
